@@ -132,7 +132,10 @@ class SQLiteTrigger(BaseTrigger):
     def _register_condition(self, condition: TriggerCondition) -> None:
         with sqlite_conn(self.sqlite_db_path) as conn:
             conn.execute(
-                f"INSERT OR REPLACE INTO {self.tables.CONDITIONS} (condition_id, condition_json) VALUES (?, ?)",
+                # keep last_cron_execution of an already registered condition: REPLACE would
+                # delete the row and let the cron fire again after every new process start
+                f"""INSERT INTO {self.tables.CONDITIONS} (condition_id, condition_json) VALUES (?, ?)
+                    ON CONFLICT(condition_id) DO UPDATE SET condition_json = excluded.condition_json""",
                 (condition.condition_id, condition.to_json(self.app)),
             )
             conn.commit()
